@@ -1,7 +1,7 @@
 """C11 -- Normalize lines up with Match positions and matches the same.  M: Fixpoint on the tokenizer spec.  G: Normalize rendering compared byte for byte on every vector.  T: every corpus document / scenario / edited text, TraceV2 Pair(normalize) + Align."""
 import time
 from lib import vlib
-from checks.v2common import Acc, trace_leg, tok_model, tok_replay
+from checks.v2common import pad_leg, Acc, trace_leg, tok_model, tok_replay
 PID = "C11"
 def run():
     t0 = time.time(); v = vlib.Verdict(PID); acc = Acc(); th = vlib.TIER == "thorough"
@@ -12,6 +12,7 @@ def run():
     tok_model(acc, ["E"], 5, invariants=["Fixpoint"], expect_violation="Fixpoint")   # the open finding C11-token-ends-in-hyphen at model level ("1-.\na")
     tok_replay(v, acc, ["E", "A", "F"], 5 if th else 4)
     tok_replay(v, acc, ["G"], 6 if th else 5)
+    pad_leg(v, acc)                                       # the read buffer under the tokenizer: multi-byte text at every alignment
     recs, lines = trace_leg(v, acc, "c11", [PID])
     ps = [r for r in lines if r.get("ev") == "pair"]
     acc.nontrivial += len({r["label"] for r in ps}); acc.extra["pairs"] = len(ps)
